@@ -475,4 +475,110 @@ def c14(ctx):
                    "against the protocol invariants", "dashmap's shard locks are modelled as reader/writer locks under both preference disciplines"])
 
 
-CHECKS = {"C14": c14, "C13": c13, "C07": c07, "C08": c08, "C09": c09, "C10": c10, "C11": c11, "C03": c03, "C06": c06, "C01": c01, "C02": c02, "C04": c04, "C05": c05}
+ASAN_HS = os.path.join(os.path.dirname(os.path.dirname(os.path.abspath(__file__))), "harness", "target-asan", "x86_64-unknown-linux-gnu", "release", "hs")
+
+
+def build_asan():
+    import vlib, fcntl
+    with open(os.path.join(vlib.V, "out", ".build-asan.lock"), "w") as lk:
+        fcntl.flock(lk, fcntl.LOCK_EX)
+        env = {"RUSTFLAGS": "-Zsanitizer=address --cfg libhaystack_verif --check-cfg cfg(libhaystack_verif) --cfg hs_asan --check-cfg cfg(hs_asan)",
+               "CARGO_NET_OFFLINE": "true"}
+        rc, out = vlib.sh(["cargo", "+nightly", "build", "--release", "--offline", "--target", "x86_64-unknown-linux-gnu", "--target-dir", "target-asan"],
+                          cwd=vlib.HARNESS, env=env, check=False, timeout=3000)
+        if rc != 0:
+            raise ToolError("ASan harness build failed:\n" + out[-4000:])
+
+
+def capi_coverage_guard(ctx):
+    """every extern "C" function of src/c_api must be modelled in CApi.tla (a new function fails the check as unmodelled)"""
+    import re, glob
+    names = set()
+    for f in glob.glob("/repo/src/c_api/*.rs"):
+        names |= set(re.findall(r'extern "C" fn (\w+)', open(f, newline="").read()))
+    spec = open(os.path.join(os.path.dirname(os.path.dirname(os.path.abspath(__file__))), "spec", "CApi.tla")).read()
+    missing = sorted(n for n in names if n not in spec)
+    if missing:
+        raise ToolError("C API functions not modelled in CApi.tla: %s" % missing)
+    ctx.notes.append("coverage guard: %d extern \"C\" functions in src/c_api, all named in CApi.tla" % len(names))
+    return len(names)
+
+
+def c17(ctx):
+    q = ctx.quick
+    nfn = capi_coverage_guard(ctx)
+    vecs, _ = tlc_mc(ctx, "MC_CApi", consts={"Depth": 2 if q else 3}, invariants=["FailureIsClean", "SuccessKeepsError", "PoolIsValues", "AllModelled", "Emit"],
+                     workers=8, timeout=3000)
+    ev1 = hs_run(ctx, vecs, "gen")
+    ctx.bads += tlc_trace_stateful(ctx, "Trace_CApi", ev1, "capi.begin", shards=14)
+    note_events(ctx, ev1, key=lambda e: ["g", e.get("i")], trivial=lambda e: e.get("op") != "capi")
+    n = 150 if q else 5000
+    ev2 = hs_rec(ctx, "capi", n, ["--len", "30" if q else "60"])
+    ctx.bads += tlc_trace_stateful(ctx, "Trace_CApi", ev2, "capi.begin", shards=14)
+    note_events(ctx, ev2, key=lambda e: ["r", e.get("i")], trivial=lambda e: e.get("op") != "capi")
+
+    def flip_ret(evs):
+        for e in evs:
+            if e.get("op") == "capi" and e["c"]["fn"] == "haystack_value_get_list_len" and e["ret"].get("r") == "int":
+                e["ret"]["n"] += 1
+                return evs
+        return None
+    corrupt_check(ctx, "Trace_CApi", ev2, flip_ret, "a history whose get_list_len result was altered")
+    return finish(ctx,
+                  "MC: CApi.tla (one abstract operation per extern \"C\" function, %d functions, success and every failure branch) as a state "
+                  "machine over a 28-call menu and handle ids 1..3: FailureIsClean, SuccessKeepsError, PoolIsValues on every history of length "
+                  "<= %d, each emitted and replayed through the real functions. REC: %d random protocol-respecting histories of %s calls "
+                  "(constructors incl. invalid unit/date/time/zone/null/non-UTF-8, predicates and getters on right and wrong kinds, list / "
+                  "dict / grid operations in and out of range, Zinc and JSON in both directions, filter parse/match, error slot probes). "
+                  "Trace_CApi keeps the abstract pool / filters / error slot and compares every return value and the projection of every "
+                  "touched handle with the specification (codec results through ZincDenotes / HaysonDenotes / Eval). distinct = calls"
+                  % (nfn, 2 if q else 3, n, "30" if q else "60"),
+                  ["the harness reads handles it owns to project them (it is Rust); unit and zone existence are logged oracle facts "
+                   "(lookup correctness is C15 / C06)", "decoder leniency on non-sentences is admitted"])
+
+
+def c18(ctx):
+    import vlib
+    q = ctx.quick
+    build_asan()
+    capi_coverage_guard(ctx)
+    vecs, _ = tlc_mc(ctx, "MC_CApi", consts={"Depth": 2 if q else 3}, invariants=["FailureIsClean", "SuccessKeepsError", "PoolIsValues", "AllModelled", "Emit"],
+                     workers=8, timeout=3000)
+    asan_log = ctx.path("asan-stderr.log")
+    if os.path.exists(asan_log):
+        os.remove(asan_log)
+    env = {"HS_WORKER_STDERR": asan_log, "ASAN_OPTIONS": "detect_leaks=1:abort_on_error=0", "HS_ASAN_SELFTEST": "1"}
+    vin = ctx.fresh("gen") + ".in.ndjson"
+    ev1 = ctx.fresh("gen") + ".ev.ndjson"
+    write_ndjson(vin, vecs)
+    rc, out = vlib.sh([ASAN_HS, "run", "--in", vin, "--out", ev1], env=env, check=False, timeout=3000)
+    if rc != 0:
+        raise ToolError("instrumented harness failed: " + out[-2000:])
+    ctx.bads += tlc_trace_stateful(ctx, "Trace_CApi", ev1, "capi.begin", shards=14)
+    note_events(ctx, ev1, key=lambda e: ["g", e.get("i")], trivial=lambda e: e.get("op") != "capi")
+    n = 150 if q else 5000
+    ev2 = ctx.fresh("rec") + ".ev.ndjson"
+    rc, out = vlib.sh([ASAN_HS, "rec", "capi", "--n", str(n), "--len", "30" if q else "60", "--seed", str(ctx.seed), "--out", ev2], env=env, check=False, timeout=3400)
+    if rc != 0:
+        raise ToolError("instrumented harness failed: " + out[-2000:])
+    evs = read_ndjson(ev2)
+    if not any(e.get("op") == "capi.selftest" and not e.get("skipped") for e in evs):
+        raise ToolError("sanitizer negative controls did not run")
+    if not all(e.get("instrumented") for e in evs if e.get("op") == "capi.end"):
+        raise ToolError("histories were not executed by the instrumented build")
+    ctx.bads += tlc_trace_stateful(ctx, "Trace_CApi", ev2, "capi.begin", shards=14)
+    note_events(ctx, ev2, key=lambda e: ["r", e.get("i")], trivial=lambda e: e.get("op") not in ("capi", "capi.null"))
+    nulls = len([e for e in evs if e.get("op") == "capi.null"])
+    return finish(ctx,
+                  "the histories of C17 (every MC_CApi history of length <= %d and %d random histories), each closed by the specification's "
+                  "clean-up suffix (every outstanding string and live handle destroyed exactly once), executed by a harness built with "
+                  "AddressSanitizer + LeakSanitizer in a worker process: a report or a panic across the boundary kills the worker (outcome "
+                  "abort), __lsan_do_recoverable_leak_check runs at the end of every history; Trace_CApi additionally checks the model's "
+                  "accounting (no handle or string outstanding at the end) and the null matrix: %d (function, pointer parameter) pairs, all "
+                  "other arguments valid -> sentinel and a retrievable error. Negative controls (planted leak, double destroy) must be seen "
+                  "by the monitor. distinct = calls + null cases" % (2 if q else 3, n, nulls),
+                  ["memory errors are facts about the process: observed by ASan/LSan, judged by the trace specification",
+                   "filters have no destroy function in the C API; the harness releases them with Box::from_raw outside the accounting"])
+
+
+CHECKS = {"C17": c17, "C18": c18, "C14": c14, "C13": c13, "C07": c07, "C08": c08, "C09": c09, "C10": c10, "C11": c11, "C03": c03, "C06": c06, "C01": c01, "C02": c02, "C04": c04, "C05": c05}
